@@ -267,7 +267,16 @@ func (p *P) pkgLevel(r *core.Result, src *tape.Source, ctl *pool.Ctl, ctxmsg str
 	// snapshot of pools is disturbed by the calls above only in that instances went out and came back
 	ctl.Mode, ctl.Only = pool.AlwaysMiss, nil
 	fresh := run()
+	// third pass: EVERY pool hits (helper buffers, converters, node containers):
+	// whatever pooled object a call receives, its result must be the same
+	ctl.Mode, ctl.Only = pool.HitNewest, nil
+	all := run()
 	ctl.Mode, ctl.Only = saveM, saveO
+	if name, part, diff := probe.Compare(all, fresh); name != "" {
+		entry := name[strings.Index(name, "/")+1:]
+		r.Fail("pooled-entry-like-fresh", fmt.Sprintf("all-pools-hit entry=%s part=%s", entry, part),
+			fmt.Sprintf("%s: with every pool handing out its most recently returned object, %s returns a different result than with empty pools: probe %s differs in %s: %s", ctxmsg, entry, name, part, diff))
+	}
 	for _, site := range pool.DupSites() {
 		r.Fail("pool-holds-an-instance-twice", site, fmt.Sprintf("%s: after the package-level entry points ran, the pool used at %s holds the same object twice: the next two holders would share one instance", ctxmsg, site))
 	}
